@@ -35,10 +35,7 @@ def UExpr.printSep : UExpr → List Char
 /-- the text contains `--` (line comment) or `/*` (block comment) -/
 def hasCommentOpener : List Char → Bool
   | [] => false
-  | c :: tl =>
-    (match c, tl with
-     | '-', '-' :: _ => true
-     | '/', '*' :: _ => true
-     | _, _ => false) || hasCommentOpener tl
+  | [_] => false
+  | a :: b :: tl => (a = '-' && b = '-') || (a = '/' && b = '*') || hasCommentOpener (b :: tl)
 
 end Csvq.UPrint
